@@ -11,7 +11,7 @@ class Prop(PropBase):
     RULE = ("exhaustive: all 216 component triples in 0..5 and all 24 shades (property domain); for the tie also all "
             "256 raw palette values through the component extractors, all 256 greyscale inputs, component triples "
             "up to 255 (sampled), and every high/greyscale colour written as foreground and as background through a "
-            "real terminal (bytes compared with the model, SGR parameter checked by the oracle). Non-trivial: every "
+            "real terminal (bytes compared with the model, SGR parameter checked by the oracle), also across all effect on/off transitions around an unchanged palette colour. Non-trivial: every "
             "case; distinct by line text.")
     ALL_EXHAUSTIVE = True
     ASSUMPTIONS = ["palette layout 16 + 36r + 6g + b / 232 + shade is the xterm 256-colour layout"]
@@ -42,4 +42,22 @@ class Prop(PropBase):
             cs.append(Case("T 0 ; we 5 97 0 0 1 %d 0 0 0 9 0 0 22 24 27 25 ; we 5 98 0 0 0 9 0 0 1 %d 0 0 22 24 27 25" % (v, v), sweep="wire-high", cfgs=["0 1 %d 0 5 2" % (v % 6)]))
         for v in range(232, 256):
             cs.append(Case("T 0 ; we 5 97 0 0 2 %d 0 0 0 9 0 0 22 24 27 25 ; we 5 98 0 0 0 9 0 0 2 %d 0 0 22 24 27 25" % (v, v), sweep="wire-grey", cfgs=["2 0 %d 0 5 2" % (v % 6)]))
+        # palette colours must survive attribute transitions: same colour, effects switching on/off around it
+        effs = [(i, u, p, b) for i in (1, 2, 22) for u in (4, 24) for p in (7, 27) for b in (5, 25)]
+        vals = [16, 17, 52, 196, 231, 232, 255] if tier == "quick" else list(range(16, 256, 5))
+        k = 0
+        for v in vals:
+            kind = 1 if v < 232 else 2
+            for e1 in effs:
+                for e2 in effs:
+                    if tier == "quick" and (k % 3) and not (e1 == e2):
+                        k += 1
+                        continue
+                    k += 1
+                    a = "5 97 0 0 %d %d 0 0 0 9 0 0 %d %d %d %d" % ((kind, v) + e1)
+                    b = "5 98 0 0 %d %d 0 0 0 9 0 0 %d %d %d %d" % ((kind, v) + e2)
+                    c = "5 99 0 0 0 9 0 0 %d %d 0 0 %d %d %d %d" % ((kind, v) + e1)
+                    d = "5 100 0 0 0 9 0 0 %d %d 0 0 %d %d %d %d" % ((kind, v) + e2)
+                    cs.append(Case("T 0 ; we %s ; we %s ; we %s ; we %s" % (a, b, c, d), sweep="wire-effect-transitions",
+                                   cfgs=["%d 1 %d 0 5 2" % (k % 3, k % 6)]))
         return cs
